@@ -129,7 +129,7 @@ CLAIMS["C06"] = claim("lean-model + harness fo (TTL(ctx) recorded at every backe
     "Lean 4 proof (arithmetic on the regenerated kernel + machine step lemmas) + model/implementation correspondence", "DESIGN.md §6 C06")
 
 CLAIMS["C16"] = claim("lean-model (footprint table) + harness race (Go race detector in child processes)",
-    "PARTIAL. Lean 4 theorems decided by kernel evaluation over the complete footprint table of the public API (159 accesses with their "
+    "PARTIAL. Lean 4 theorems decided by kernel evaluation over the complete footprint table of the public API (165 accesses with their "
     "guards): every unprotected conflicting pair is one of the two known findings (in-place expiry write of ExpireAll; plain struct "
     "copies vs the atomic LRU/LFU counter), every other location (shard maps, sync.Map, key locks and lock records, label index, "
     "deleters, lastRun, expirationsSet) is disciplined, and the table is race free once the two repairs are applied. Implementation side: "
